@@ -11,11 +11,11 @@ CONSTANTS
   Dts = {250}
   CraftToks = {}
   MaxPresent = 2
-  Calls = {"exchange", "client", "disconnect"}
+  Calls = {"exchange", "client", "disconnect", "deliver"}
   PropsOn <- P_HS
   Export = TRUE
   ExportAll = FALSE
-  ExportOneIn = 8
+  ExportOneIn = 4
 INVARIANT NoFlag
 INVARIANT ExportInv
 VIEW View
